@@ -19,7 +19,7 @@ fn same(ctx: &Ctx, key: &str, size: u64, a: &T, b: &T, what: impl Fn() -> String
                     key,
                     size,
                     || format!("{}: the two construction paths differ at offset {} ({} vs {} bytes): {} | {}", what(), d, x.len(), y.len(), hex(&x[d.saturating_sub(4)..(d + 12).min(x.len())]), hex(&y[d.saturating_sub(4)..(d + 12).min(y.len())])),
-                    || json!({"family":"alt-paths","what":what()}),
+                    || json!({"family":"alt-paths","what":what(),"t":crate::props::c06::tjson(a),"t2":crate::props::c06::tjson(b)}),
                 );
             }
         }
